@@ -96,6 +96,7 @@ def run(ctx):
                  'float32/float64; planar_mesh.mirror: 2..4 nodes per side, flat / offset / rough heights, tilts, rays that hit, miss '
                  'the rectangle, run parallel, point away; batch: 1-3 triangles x 1-3 rays')
     __import__('harness.props.gengeom', fromlist=['x']).check_generated_geometry(ctx, 'C10')   # regenerated definitions vs /repo
+    __import__('harness.props.gengeombatch', fromlist=['x']).check_generated_batches(ctx)      # regenerated BATCHED definitions vs /repo
     NT = ctx.n(60, 600)
     lines, cases = [], []
     for _ in range(NT):
